@@ -418,7 +418,16 @@ class Collector:
 
 
 # ------------------------------------------------------------------------------------------------ analysis
+_MEMO = {}
+
+
 def analyse():
+    if "r" not in _MEMO:
+        _MEMO["r"] = _analyse()
+    return _MEMO["r"]
+
+
+def _analyse():
     w = World()
     calls = []
     for m in w.mods.values():
@@ -480,6 +489,26 @@ def analyse():
         uniq.setdefault(s["key"], s)
     sites = [uniq[k] for k in sorted(uniq)]
     n_early_calls = sum(1 for c in calls if c.ctx != "perCall")
+    # call nodes that (may) draw: primitive calls and calls of callables from which a draw is reachable
+    memo = {}
+    draw_nodes = {}
+    direct_nodes = set()
+    for c, ts in resolved:
+        for t in ts:
+            if t[0] == "prim":
+                draw_nodes[id(c.node)] = c
+                direct_nodes.add(id(c.node))
+            else:
+                fn = (t[1], t[2])
+                if fn not in memo:
+                    memo[fn] = bool(reach(fn, set()))
+                if memo[fn]:
+                    draw_nodes[id(c.node)] = c
+                    # a helper of the same class that itself contains a primitive draw (e.g. `_create_nonce`, `generate_nonce`)
+                    if c.cls and t[1] == c.mod.name and t[2].rsplit(".", 1)[0] == c.cls and draws_in.get(fn):
+                        direct_nodes.add(id(c.node))
+    w.draw_nodes = draw_nodes
+    w.direct_nodes = direct_nodes
     return w, sites, {"calls_total": len(calls), "calls_in_early_position": n_early_calls, "modules": len(w.mods)}
 
 
@@ -525,4 +554,231 @@ def gen_SecretSites() -> None:
     emit("SecretSites", "\n".join(out) + "\n", meta)
 
 
-GENERATORS = {"SecretSites": gen_SecretSites}
+# ================================================================================================ carried secret state
+def _self_attr(node):
+    if isinstance(node, ast.Attribute) and isinstance(node.value, ast.Name) and node.value.id == "self":
+        return node.attr
+    return None
+
+
+def _mentions(expr, names):
+    """does the expression read `self.<n>` for an n in names"""
+    for n in ast.walk(expr):
+        a = _self_attr(n)
+        if a is not None and a in names and isinstance(n.ctx, ast.Load):
+            return True
+    return False
+
+
+class MethodInfo:
+    def __init__(self, fn):
+        self.fn = fn
+        self.kind = "method"  # getter | setter | method
+        self.prop = None
+        for d in fn.decorator_list:
+            if isinstance(d, ast.Name) and d.id in ("property", "cached_property"):
+                self.kind, self.prop = "getter", fn.name
+            elif isinstance(d, ast.Attribute) and d.attr == "setter" and isinstance(d.value, ast.Name):
+                self.kind, self.prop = "setter", d.value.id
+            elif isinstance(d, ast.Attribute) and d.attr in ("cached_property",):
+                self.kind, self.prop = "getter", fn.name
+
+
+def _tainted_locals(fn, draw_nodes):
+    """local names that (may) hold a drawn value"""
+    tainted = set()
+
+    def has_draw(e):
+        for n in ast.walk(e):
+            if isinstance(n, ast.Call) and id(n) in draw_nodes:
+                return True
+            if isinstance(n, ast.Name) and n.id in tainted and isinstance(n.ctx, ast.Load):
+                return True
+        return False
+
+    for _ in range(3):
+        for n in ast.walk(fn):
+            if isinstance(n, ast.Assign) and has_draw(n.value):
+                for t in n.targets:
+                    if isinstance(t, ast.Name):
+                        tainted.add(t.id)
+            elif isinstance(n, (ast.AnnAssign, ast.AugAssign)) and n.value is not None and has_draw(n.value):
+                if isinstance(n.target, ast.Name):
+                    tainted.add(n.target.id)
+    return tainted, has_draw
+
+
+def _assign_targets(st):
+    if isinstance(st, ast.Assign):
+        return st.targets, st.value
+    if isinstance(st, (ast.AnnAssign, ast.AugAssign)) and st.value is not None:
+        return [st.target], st.value
+    return [], None
+
+
+class SlotFlow:
+    """must-assign analysis of one slot in one method.  `writes` = names whose assignment (re)sets the slot:
+    the slot itself and the properties whose setter assigns it on every path; `reads` = names that read it."""
+
+    def __init__(self, writes, reads):
+        self.writes, self.reads = writes, reads
+        self.returns = []
+        self.lazy = False
+        self.may = False
+
+    def stmt_assigns(self, st):
+        targets, value = _assign_targets(st)
+        for t in targets:
+            for tt in (t.elts if isinstance(t, (ast.Tuple, ast.List)) else [t]):
+                a = _self_attr(tt)
+                if a is not None and a in self.writes:
+                    self.may = True
+                    if isinstance(st, ast.AugAssign) or _mentions(value, self.reads):
+                        return False  # `self.x = self.x or draw()` keeps the old value
+                    return True
+        return False
+
+    def flow(self, stmts, states):
+        for st in stmts:
+            if not states:
+                return states
+            states = self.one(st, states)
+        return states
+
+    def one(self, st, states):
+        if isinstance(st, (ast.Return,)):
+            self.returns.extend(states)
+            return set()
+        if isinstance(st, ast.Raise):
+            return set()
+        if isinstance(st, ast.If):
+            if _mentions(st.test, self.reads):
+                # `if self.x is None: self.x = draw()` - lazy initialisation, not a reset
+                sub = SlotFlow(self.writes, self.reads)
+                sub.flow(st.body, {False})
+                sub.flow(st.orelse, {False})
+                if sub.may:
+                    self.lazy = True
+                    self.may = True
+                    self.returns.extend(sub.returns and states or [])
+                    return states
+            return self.flow(st.body, set(states)) | self.flow(st.orelse, set(states))
+        if isinstance(st, (ast.For, ast.AsyncFor, ast.While)):
+            body = self.flow(st.body, set(states))
+            return states | body | self.flow(st.orelse, states | body)
+        if isinstance(st, (ast.With, ast.AsyncWith)):
+            return self.flow(st.body, states)
+        if isinstance(st, ast.Try):
+            body = self.flow(st.body, set(states))
+            out = self.flow(st.orelse, set(body)) if st.orelse else set(body)
+            for h in st.handlers:
+                out |= self.flow(h.body, states | body)
+            if st.finalbody:
+                out = self.flow(st.finalbody, out)
+            return out
+        if isinstance(st, ast.Match):
+            out = set(states)
+            for c in st.cases:
+                out |= self.flow(c.body, set(states))
+            return out
+        if isinstance(st, (ast.FunctionDef, ast.AsyncFunctionDef, ast.ClassDef)):
+            return states
+        if self.stmt_assigns(st):
+            return {True}
+        return states
+
+    def run(self, fn):
+        out = self.flow(fn.body, {False})
+        ends = list(out) + self.returns
+        return self.may, bool(ends) and all(ends)
+
+
+import re  # noqa: E402
+
+# public entry points that re-specify an existing object from user input
+_RESPEC_NAME = re.compile(r"(load.*config|from_config|parse)", re.I)
+
+
+def analyse_state():
+    w, _sites, _stats = analyse()
+    rows = []
+    for m in sorted(w.mods.values(), key=lambda x: x.rel):
+        for clsq, cdef in sorted(m.classes.items()):
+            methods = {st.name + ("#set" if MethodInfo(st).kind == "setter" else ""): MethodInfo(st)
+                       for st in cdef.body if isinstance(st, (ast.FunctionDef, ast.AsyncFunctionDef))}
+            # 1. slots: self.A assigned from a (possibly) drawn value
+            slots = {}
+            direct = set()
+            for mi in methods.values():
+                _t, has_draw = _tainted_locals(mi.fn, w.draw_nodes)
+                _t2, has_direct = _tainted_locals(mi.fn, w.direct_nodes)
+                for n in ast.walk(mi.fn):
+                    targets, value = _assign_targets(n) if isinstance(n, ast.stmt) else ([], None)
+                    if value is None or not has_draw(value):
+                        continue
+                    for t in targets:
+                        a = _self_attr(t)
+                        if a is not None:
+                            slots.setdefault(a, n.lineno)
+                            if has_direct(value):
+                                direct.add(a)
+            if not slots:
+                continue
+            # a property whose setter draws stores into the slots its setter assigns: resolve property -> slot
+            setters = {mi.prop: mi for mi in methods.values() if mi.kind == "setter"}
+            getters = {mi.prop: mi for mi in methods.values() if mi.kind == "getter"}
+            real_slots = {a: ln for a, ln in slots.items() if a not in setters}
+            for slot, line in sorted(real_slots.items()):
+                # properties that read / (always) write the slot
+                reads = {slot} | {p for p, g in getters.items() if _mentions_any(g.fn, {slot})}
+                writes = {slot}
+                for p, smi in setters.items():
+                    may, must = SlotFlow({slot}, reads).run(smi.fn)
+                    if must:
+                        writes.add(p)
+                for name, mi in sorted(methods.items()):
+                    sf = SlotFlow(writes, reads)
+                    may, must = sf.run(mi.fn)
+                    # conditional writes through a property whose setter only sometimes assigns
+                    cond_props = {p for p, smi in setters.items() if p not in writes and SlotFlow({slot}, reads).run(smi.fn)[0]}
+                    if not may and cond_props and mi.kind != "setter":
+                        sf2 = SlotFlow(cond_props, reads)
+                        may2, _ = sf2.run(mi.fn)
+                        may, must = may2, False
+                    if not may:
+                        continue
+                    if mi.fn.name in ("__init__", "__new__", "__post_init__"):
+                        role = "init"
+                    elif mi.kind == "getter":
+                        role = "getter"
+                    elif sf.lazy and not must:
+                        role = "lazy"
+                    elif mi.kind == "setter" or _RESPEC_NAME.search(mi.fn.name):
+                        role = "respec"
+                    else:
+                        role = "other"
+                    rows.append(dict(cls=clsq, slot=slot, method=mi.fn.name + (".setter" if mi.kind == "setter" else ""), role=role,
+                                     resets=bool(must), direct=slot in direct, loc=f"{m.rel}:{mi.fn.lineno}", kind=kind_of(m.rel)))
+    return rows
+
+
+def _mentions_any(fn, names):
+    return any(_self_attr(n) in names for n in ast.walk(fn) if isinstance(n, ast.Attribute))
+
+
+def gen_SecretState() -> None:
+    rows = analyse_state()
+    out = ["import SpsdkVerif.Model.FreshObj", "", "namespace SpsdkVerif.Generated", "open SpsdkVerif.Fresh", "",
+           "/-- every method that writes an attribute holding a self-chosen secret: role and whether every normal path (re)sets it -/",
+           "def secretSlots : List SlotPath := ["]
+    out.append(",\n".join("  { kind := .%s, cls := %s, slot := %s, method := %s, role := .%s, resets := %s, direct := %s, loc := %s }" % (
+        r["kind"], lean_str(r["cls"]), lean_str(r["slot"]), lean_str(r["method"]), r["role"], "true" if r["resets"] else "false",
+        "true" if r["direct"] else "false", lean_str(r["loc"]))
+        for r in rows))
+    out.append("]")
+    out.append("")
+    out.append("end SpsdkVerif.Generated")
+    emit("SecretState", "\n".join(out) + "\n", {"slots": rows, "by_role": {k: sum(1 for r in rows if r["role"] == k) for k in ("init", "getter", "lazy", "respec", "other")}})
+
+
+GENERATORS = {"SecretSites": gen_SecretSites, "SecretState": gen_SecretState}
